@@ -345,6 +345,22 @@ func (c *Ctx) builtinSemantics(fr *Frame, st *State, callee *ssa.Function, args 
 		return c.mkVal(f64, c.def("m", "Float64", fmt.Sprintf("(%s %s)", op, args[0].S))), true
 	}
 	switch key {
+	case "unicode/utf8.DecodeRune", "unicode/utf8.DecodeRuneInString", "unicode/utf8.DecodeLastRune":
+		if len(args) == 1 && args[0].S != "" && c.mode == INT {
+			tup, ok := rt.(*types.Tuple)
+			if ok && tup.Len() == 2 {
+				r := c.havocVal(tup.At(0).Type(), "rune")
+				w := c.havocVal(tup.At(1).Type(), "width")
+				ln := fmt.Sprintf("(s_len %s)", args[0].S)
+				if strings.HasSuffix(key, "InString") {
+					ln = fmt.Sprintf("(str_len %s)", args[0].S)
+				}
+				c.assume("true", fmt.Sprintf("(and (<= 0 %s) (<= %s 1114111))", r.S, r.S))
+				c.assume("true", fmt.Sprintf("(ite (= %s 0) (and (= %s 0) (= %s 65533)) (and (<= 1 %s) (<= %s 4) (<= %s %s)))", ln, w.S, r.S, w.S, w.S, w.S, ln))
+				c.trusted["utf8.DecodeRune: 0 <= rune <= 0x10FFFF; width 0 and RuneError for empty input, otherwise 1 <= width <= min(4, len)"] = true
+				return Val{T: rt, Elems: []Val{r, w}}, true
+			}
+		}
 	case "math.Floor":
 		return un("fp.roundToIntegral RTN")
 	case "math.Ceil":
@@ -587,7 +603,7 @@ func (c *Ctx) applyContract(fr *Frame, st *State, ct *Contract, callee *ssa.Func
 		}
 	}
 	if !ct.Pure && !modifiesNothing(ct) {
-		for _, g := range []string{"cpu", "mem"} {
+		for _, g := range []string{"cpu", "mem", "sent"} { // engine-tracked counters; others change only through explicit `ghost g += e` clauses
 			if cur, ok := st.ghost[g]; ok && !explicit[g] {
 				ng := c.decl("ghost_"+g, "Int")
 				c.assume("true", fmt.Sprintf("(>= %s %s)", ng, cur))
@@ -1115,4 +1131,13 @@ func sourceOrdinal(fr *Frame, at ssa.Instruction, form string) (int, bool) {
 	}
 	n, ok := m[at]
 	return n, ok
+}
+
+func sortedGhosts(st *State) []string {
+	var ks []string
+	for k := range st.ghost {
+		ks = append(ks, k)
+	}
+	sort.Strings(ks)
+	return ks
 }
